@@ -117,6 +117,16 @@ def _few_rows_for_clusters(sess, rnd):
     return ("fit", (dec, rew, ctx))
 
 
+def _few_rows_first_partial_fit(sess, rnd):
+    """The first training call is a partial_fit that fails INSIDE training (it acts as fit)."""
+    npol = sess.cfg.get("np")
+    if not npol or npol[0] != "Clusters" or sess.fitted:
+        return None
+    n = npol[1]["n_clusters"] - 1
+    dec, rew, ctx = _split(_rows(sess, rnd, n), True)
+    return ("partial_fit", (dec, rew, ctx))
+
+
 def _q(sess, rnd, m=2):
     return gen.gen_Q(rnd, m, sess.d or 2, "exact")
 
@@ -167,6 +177,7 @@ for _k in ("fit", "partial_fit"):
 CATALOGUE.update({
     "partial_fit.other_column_count": _other_columns("partial_fit"),
     "fit.fewer_rows_than_clusters": _few_rows_for_clusters,
+    "partial_fit.first_call_fewer_rows_than_clusters": _few_rows_first_partial_fit,
     "predict.before_fit": _before_fit("predict"),
     "predict_expectations.before_fit": _before_fit("predict_expectations"),
     "predict.contexts_missing": lambda s, r: ("predict", ()) if (s.fitted and s.ctxl) else None,
@@ -398,7 +409,8 @@ def execute(case, ctx):
                 pass
             return
         ctx.fired("fault.rejected_call")
-        if entry in ("partial_fit.other_column_count", "fit.fewer_rows_than_clusters"):
+        if entry in ("partial_fit.other_column_count", "fit.fewer_rows_than_clusters",
+                     "partial_fit.first_call_fewer_rows_than_clusters"):
             ctx.fired("fault.shape_error_inside_training")
         ctx.fired("oracle.comparisons")
         if list(P.mab.arms) != arms_before:
